@@ -5,42 +5,49 @@ From Coq Require Import List NArith Bool Arith.
 From PV Require Import C12Model.
 Import ListNotations.
 
-Fixpoint compat_tf (fuel : nat) (v q : bool) (t1 t2 : ty) : bool :=
-  match fuel with
-  | O => false
-  | S f =>
-      match t1, t2 with
-      | TName _, _ | _, TName _ => false                    (* resolved away before *)
-      | TErr, _ => false
-      | TQual q1 u1, _ =>
-          if q then compat_tf f v q u1 t2
-          else match t2 with
-               | TVoid => v
-               | TQual q2 u2 => N.eqb q1 q2 && compat_tf f v q u1 u2
-               | _ => false
-               end
-      | _, TQual _ u2 => if q then compat_tf f v q t1 u2 else (match t1 with TVoid => v | _ => false end)
-      | TArr a, TArr b | TArr a, TPtr b | TPtr a, TArr b | TPtr a, TPtr b => compat_tf f v q a b
-      | TArr _, TVoid | TPtr _, TVoid | TBasic _, TVoid | TFun _ _, TVoid | TTag _, TVoid => v
-      | TVoid, TVoid => true
-      | TVoid, TErr => false
-      | TVoid, _ => v
-      | TBasic k1, TBasic k2 => N.eqb k1 k2
-      | TTag n1, TTag n2 => N.eqb n1 n2
-      | TFun r1 ps1, TFun r2 ps2 =>
-          compat_tf f false q r1 r2 &&
-          (fix go (l1 l2 : list ty) : bool :=
-             match l1, l2 with
-             | [], [] => true
-             | a :: l1', b :: l2' => compat_tf f v q a b && go l1' l2'
-             | _, _ => false
-             end) ps1 ps2
-      | _, _ => false
-      end
+(** with ignoreQualifier the relation strips qualifiers on either side wherever it meets them: on terms, it compares the
+    terms with every qualifier erased *)
+Fixpoint erase (t : ty) : ty :=
+  match t with
+  | TQual _ u => erase u
+  | TPtr u => TPtr (erase u)
+  | TArr u => TArr (erase u)
+  | TFun r ps => TFun (erase r) (map erase ps)
+  | _ => t
   end.
 
-Definition compat (d : list (N * ty)) (v q : bool) (t1 t2 : ty) : bool :=
-  let a := den d t1 in let b := den d t2 in compat_tf (S (size a + size b)) v q a b.
+(** qualifiers respected; [v] = treatVoidAsAny *)
+Fixpoint cmp (v : bool) (t1 t2 : ty) {struct t1} : bool :=
+  match t1, t2 with
+  | TName _, _ | _, TName _ => false                    (* resolved away before *)
+  | TErr, _ => false
+  | TQual q1 u1, TQual q2 u2 => N.eqb q1 q2 && cmp v u1 u2
+  | TQual _ _, TVoid => v
+  | TQual _ _, _ => false
+  | TVoid, TQual _ _ => v
+  | _, TQual _ _ => false
+  | TArr a, TArr b | TArr a, TPtr b | TPtr a, TArr b | TPtr a, TPtr b => cmp v a b
+  | TArr _, TVoid | TPtr _, TVoid | TBasic _, TVoid | TFun _ _, TVoid | TTag _, TVoid => v
+  | TVoid, TVoid => true
+  | TVoid, TErr => false
+  | TVoid, _ => v
+  | TBasic k1, TBasic k2 => N.eqb k1 k2
+  | TTag n1, TTag n2 => N.eqb n1 n2
+  | TFun r1 ps1, TFun r2 ps2 =>
+      cmp false r1 r2 &&
+      (fix go (l1 l2 : list ty) : bool :=
+         match l1, l2 with
+         | [], [] => true
+         | a :: l1', b :: l2' => cmp v a b && go l1' l2'
+         | _, _ => false
+         end) ps1 ps2
+  | _, _ => false
+  end.
+
+Definition compat_tf (v q : bool) (t1 t2 : ty) : bool :=
+  if q then cmp v (erase t1) (erase t2) else cmp v t1 t2.
+
+Definition compat (d : list (N * ty)) (v q : bool) (t1 t2 : ty) : bool := compat_tf v q (den d t1) (den d t2).
 
 (** types the relation is meant for: no error type inside *)
 Fixpoint clean (t : ty) : bool :=
@@ -50,3 +57,58 @@ Fixpoint clean (t : ty) : bool :=
   | TFun r ps => clean r && forallb clean ps
   | _ => true
   end.
+
+(* ------------------------------------------------------------------ assignability *)
+(** TypeChecker::unqualifiedAndResolved on typedef-free terms: the top-level qualifiers go *)
+Fixpoint strip (t : ty) : ty := match t with TQual _ u => strip u | _ => t end.
+
+Definition BOOL_KIND : N := 11.      (* BasicTypeKind::Bool *)
+Definition INT_KIND : N := 5.        (* BasicTypeKind::Int_S *)
+
+(** TypeChecker::isTypeAssignableFromOtherType(ty, otherTy, node) on typedef-free terms; [nullc]: node is the constant 0 *)
+Definition assignable (l r : ty) (nullc : bool) : bool :=
+  let l' := strip l in let r' := strip r in
+  match r' with
+  | TArr e =>
+      match l' with
+      | TPtr p => compat_tf true true p e
+      | TArr e2 => compat_tf false true e2 e
+      | _ => false
+      end
+  | _ =>
+      match l', r' with
+      | TBasic k, TPtr _ => N.eqb k BOOL_KIND
+      | TBasic _, TBasic _ => true
+      | TTag _, _ => compat_tf false false l' r'
+      | TPtr p, TPtr q => compat_tf true true p q
+      | TPtr _, TBasic k => N.eqb k INT_KIND && nullc
+      | _, _ => false
+      end
+  end.
+
+(** the specification: C11 6.2.7 (compatible types) and 6.5.16.1-1 (simple assignment), on typedef-free terms
+    without enumerated types (the checker has no arithmetic enumerated types: C11's known finding) *)
+Inductive compat_spec : ty -> ty -> Prop :=
+| cs_basic k : compat_spec (TBasic k) (TBasic k)
+| cs_void : compat_spec TVoid TVoid
+| cs_tag n : compat_spec (TTag n) (TTag n)
+| cs_ptr a b : compat_spec a b -> compat_spec (TPtr a) (TPtr b)
+| cs_arr a b : compat_spec a b -> compat_spec (TArr a) (TArr b)
+| cs_qual q a b : compat_spec a b -> compat_spec (TQual q a) (TQual q b)
+| cs_fun r1 r2 ps1 ps2 : compat_spec r1 r2 -> Forall2 compat_spec ps1 ps2 -> compat_spec (TFun r1 ps1) (TFun r2 ps2).
+
+Definition quals_of (t : ty) : N := match t with TQual q _ => q | _ => 0%N end.
+Definition unq (t : ty) : ty := match t with TQual _ u => u | _ => t end.
+Definition includes (q1 q2 : N) : Prop := N.lor q1 q2 = q1.
+
+Inductive assignable_spec : ty -> ty -> bool -> Prop :=
+| as_arith k1 k2 nc : assignable_spec (TBasic k1) (TBasic k2) nc
+| as_struct n nc : assignable_spec (TTag n) (TTag n) nc
+| as_ptr a b nc : compat_spec (unq a) (unq b) -> includes (quals_of a) (quals_of b) -> assignable_spec (TPtr a) (TPtr b) nc
+| as_voidptr_l a b nc : unq a = TVoid -> includes (quals_of a) (quals_of b) -> assignable_spec (TPtr a) (TPtr b) nc
+| as_voidptr_r a b nc : unq b = TVoid -> includes (quals_of a) (quals_of b) -> assignable_spec (TPtr a) (TPtr b) nc
+| as_null a : assignable_spec (TPtr a) (TBasic INT_KIND) true
+| as_bool a nc : assignable_spec (TBasic BOOL_KIND) (TPtr a) nc
+| as_decay a e nc : assignable_spec (TPtr a) (TPtr e) nc -> assignable_spec (TPtr a) (TArr e) nc      (* array-to-pointer conversion of the right operand *)
+| as_lqual q l r nc : assignable_spec l r nc -> assignable_spec (TQual q l) r nc                       (* qualifiers of the left operand other than const do not matter here *)
+| as_rqual q l r nc : assignable_spec l r nc -> assignable_spec l (TQual q r) nc.                      (* lvalue conversion drops the qualifiers of the right operand *)
